@@ -20,7 +20,7 @@ EXHAUSTIVE = True
 SHARDS = {"quick": 8, "thorough": 16}
 DEADLINE = {"quick": 50, "thorough": 420}
 REQUIRED = {"layout:calls": 2000, "layout:class:plain": 100, "layout:class:one-child": 500, "layout:repeat-compared": 500,
-            "layout:mirror-compared": 500, "inv:y": 1000, "inv:bounds": 1000, "layout:subtree-with-parent": 200, "layout:detached-subtree": 200, "layout:ids:same": 100, "layout:ids:pool3": 100, "layout:ids:clone": 100, "inv:centre": 500, "inv:sep": 500}
+            "layout:mirror-compared": 500, "inv:y": 1000, "inv:bounds": 1000, "layout:subtree-with-parent": 200, "layout:detached-subtree": 200, "layout:ids:same": 100, "layout:ids:eq-by-value": 100, "layout:ids:pool3": 100, "layout:ids:clone": 100, "inv:centre": 500, "inv:sep": 500}
 EPS = 1e-9
 
 
@@ -128,7 +128,7 @@ def coords(root):
     return [(n.x, n.y) for n in S.nodes_preorder(root)]
 
 
-ID_SCHEMES = ("fresh", "same", "pool3", "clone")
+ID_SCHEMES = ("fresh", "same", "pool3", "clone", "eq-by-value")
 
 
 def node_factory(ids="fresh"):
@@ -138,6 +138,23 @@ def node_factory(ids="fresh"):
     rules build results out of clones)."""
     from mathy_core.tree import BinaryTreeNode
 
+    if ids == "eq-by-value":
+        # a subclass of the public node class that compares by payload (a dataclass-style node):
+        # siblings, cousins and parent/child pairs that are EQUAL but not identical are common
+        # (the payload is the height of the node, so a parent never equals its own child -- set_left /
+        # set_right refuse a child that compares equal to the parent -- while siblings often do)
+        class Payload(BinaryTreeNode):
+            def __init__(self, left=None, right=None, value=0):
+                self.value = 1 + max(getattr(left, "value", 0), getattr(right, "value", 0))
+                super().__init__(left, right)
+
+            def __eq__(self, other):
+                return isinstance(other, Payload) and other.value == self.value
+
+            def __hash__(self):
+                return hash(self.value)
+
+        return lambda l, r, i: Payload(l, r, i % 2)
     if ids == "same":
         return lambda l, r, i: BinaryTreeNode(l, r, None, "n")
     if ids in ("pool3", "clone"):
@@ -263,7 +280,7 @@ def run(rec, cfg):
             rec.truncated = True
             break
         units = UNITS if W9.count(s) <= 6 else [UNITS[idx % 4], (1, 1)]
-        drive_shape(rec, s, units, ids=ID_SCHEMES[(idx // cfg.nshards) % 4] if idx % 2 else "fresh")
+        drive_shape(rec, s, units, ids=ID_SCHEMES[(idx // cfg.nshards) % 5] if idx % 2 else "fresh")
         rec.arm("shapes:exhaustive")
         if idx % 211 == 0:
             rec.sample({"shape": W9.shape_str(s), "nodes": W9.count(s), "units": units})
@@ -277,7 +294,7 @@ def run(rec, cfg):
                 return (None, None) if x is None else (fill(x[0]), fill(x[1]))
             k += 1
             if cfg.mine(k):
-                drive_shape(rec, fill(s), [(1, 1), UNITS[k % 4]], ids=ID_SCHEMES[(k // cfg.nshards) % 4])
+                drive_shape(rec, fill(s), [(1, 1), UNITS[k % 4]], ids=ID_SCHEMES[(k // cfg.nshards) % 5])
                 rec.arm("shapes:full-exhaustive")
     for i in range(cfg.scale(20, 400)):
         if cfg.out_of_time():
